@@ -93,6 +93,13 @@ def run_sequences(ctx, res, prop, seqs, label, strace=False, extra_fds=()):
         apply_verdict(res, prop, out, known, counters)
         if prop in ("C04", "ALL") or True:
             fb = F.check_files(out)
+            if out.get("lost_builtin_text") and prop == "C04":
+                if "captured-builtin-target-ignored" in known:
+                    res.known("captured-builtin-target-ignored", "class=captured-builtin-target-ignored what=%s observed=file %s lacks the text of the captured builtin: %s" % (
+                        known["captured-builtin-target-ignored"].get("what", "")[:90], out["lost_builtin_text"][0],
+                        out["line"][:200].replace(os.path.join(ctx.helpers, "hp"), "hp")))
+                else:
+                    fb = fb + [(nm, "text of the builtin", "missing") for nm in out["lost_builtin_text"]]
             res.extra["files_compared"] = res.extra.get("files_compared", 0) + len(out.get("files_full", {}))
             if fb and prop == "C04":
                 if counters["viol"] < 4:
